@@ -15,7 +15,7 @@ pub fn protected_symlinks_sysctl() -> (r: u32) ensures r == sysctl_spec() { unim
 /// definition of the ghost token `follow_checked`: the kernel's rule does not refuse (dir, link)
 pub proof fn axiom_follow_checked(dir: int, link: int, sysctl: u32, fsuid: u32, link_uid: u32, dir_mode: u32, dir_uid: u32)
     requires !kernel_refuses_link(sysctl, fsuid, link_uid, dir_mode, dir_uid),       // [C15.may_follow_link.token_only_if_rule_allows]
-        sysctl == sysctl_spec(), fsuid == euid_spec(),
+        sysctl == sysctl_spec(), fsuid == fsuid_spec(),
         link_uid == meta_of(link).uid_spec(), dir_mode == meta_of(dir).mode_spec(), dir_uid == meta_of(dir).uid_spec(),   // [C15.may_follow_link.rule_evaluated_on_this_dir_and_link]
     ensures follow_checked(dir, link)
 { admit(); }
